@@ -1396,7 +1396,10 @@ fn parse_root(toks: &[&str]) -> (Root, Vec<TAd>) {
 }
 
 fn shape_iter<const D: usize>(lens: &[usize], n: usize) -> String {
-    let shape: [(&'static str, usize); D] = std::array::from_fn(|d| (NAME_POOL[d], lens[d]));
+    // the names play no role in iteration: take them from the adversarial list
+    let off: usize = lens.iter().fold(0usize, |a, l| a.wrapping_add(*l)) % 20;
+    let shape: [(&'static str, usize); D] =
+        std::array::from_fn(|d| (intern(ADVERSARIAL_NAMES[(off + d) % 20]), lens[d]));
     let recs = drive(|| ShapeIterator::from(shape), n, |i| i.show_idx());
     let mut total: u128 = 1;
     for &l in lens {
@@ -1734,7 +1737,15 @@ fn shapes_up_to(max_d: usize, max_product: usize) -> Vec<Vec<usize>> {
 fn named(g: &mut Gen, lens: &[usize]) -> Vec<(&'static str, usize)> {
     let mut pool: Vec<&str> = NAME_POOL.to_vec();
     g.rng.shuffle(&mut pool);
-    lens.iter().enumerate().map(|(i, l)| (intern(pool[i]), *l)).collect()
+    if g.rng.chance(1, 2) {
+        // names the library uses internally, prefixes of one another, the empty name …
+        // (wire tokens: the runner interns them)
+        g.count("names.adversarial");
+        let names = adversarial_names(&mut g.rng, lens.len());
+        return lens.iter().enumerate().map(|(i, l)| (names[i], *l)).collect();
+    }
+    g.count("names.plain");
+    lens.iter().enumerate().map(|(i, l)| (wire_name(pool[i]), *l)).collect()
 }
 
 const FLAVOURS: [&str; 4] = ["copy", "ref", "mut", "owned"];
@@ -1798,7 +1809,11 @@ fn random_tad(g: &mut Gen, shape: &[(&'static str, usize)]) -> Option<TAd> {
         5 => {
             let mut pool: Vec<&str> = NAME_POOL.to_vec();
             g.rng.shuffle(&mut pool);
-            Some(TAd::Rename(pool[..d].iter().map(|n| intern(n)).collect()))
+            if g.rng.chance(1, 2) {
+                // possibly re-using some of the old names at other positions
+                return Some(TAd::Rename(adversarial_names(&mut g.rng, d)));
+            }
+            Some(TAd::Rename(pool[..d].iter().map(|n| wire_name(n)).collect()))
         }
         0 => {
             // a non-empty range on a random non-empty subset of the dimensions
@@ -2259,9 +2274,18 @@ fn gen_zip_cases(g: &mut Gen) {
             let (pre, cur_src) =
                 if ds > 0 && g.rng.chance(1, 2) { random_post(g, &shape, 1) } else { (vec![], shape.clone()) };
             let mut stacked = cur_src.clone();
-            stacked.insert(pos, (intern("s"), n));
+            // the new dimension: "s", or an adversarial name that is not among the sources' names
+            let sname: &'static str = if g.rng.chance(1, 2) {
+                wire_name("s")
+            } else {
+                adversarial_names(&mut g.rng, 12)
+                    .into_iter()
+                    .find(|n| !cur_src.iter().any(|d| d.0 == *n))
+                    .unwrap_or(wire_name("s"))
+            };
+            stacked.insert(pos, (sname, n));
             let (post, cur) = random_post(g, &stacked, 2);
-            let mut header = format!("@ stack {}.s {} {} {}", pos, form, n, show_shape(&shape));
+            let mut header = format!("@ stack {}.{} {} {} {}", pos, sname, form, n, show_shape(&shape));
             for ad in &pre {
                 header.push_str(&format!(" pre:{}", show_tad(ad)));
             }
